@@ -356,6 +356,7 @@ class Run:
     # stage 5 (analysis code of the generators), one line per area: area -> properties
     for _p in ("C05", "C09", "C15"): TRANSLATION_TIES.setdefault(_p, []).append("mapmatch")
     for _p in ("C02", "C03", "C11"): TRANSLATION_TIES.setdefault(_p, []).append("ctorshadow")
+    for _p in ("C16",): TRANSLATION_TIES.setdefault(_p, []).append("cliselect")
 
     def run_translation_ties(self, cov):
         areas = self.TRANSLATION_TIES.get(self.prop)
